@@ -82,7 +82,17 @@ class DomainParser:
                 }
             )
 
+        # The declarations may appear in any order so the parents are linked only after all the types are known.
+        for declared_type in list(pddl_types.values()):
+            if declared_type.parent.name not in pddl_types:
+                # a parent that never appears as a child is a direct descendant of object.
+                pddl_types[declared_type.parent.name] = declared_type.parent
+
         pddl_types["object"] = ObjectType
+        for declared_type in pddl_types.values():
+            if declared_type.parent is not None:
+                declared_type.parent = pddl_types[declared_type.parent.name]
+
         self.logger.debug(
             f"Extracted {len(pddl_types)} types while parsing the types AST."
         )
